@@ -28,6 +28,9 @@ func init() {
 			{ID: "R01g", Floor: 9, Doc: "verifying readers accept exactly the blocks whose bytes hash to their CID under the CID's own prefix (= R02a): a reader that rejects valid blocks breaks the round trip", Run: ruleR02a},
 			{ID: "R01h", Floor: 2, Doc: "index generation records true section offsets (= R03b)", Run: ruleR03b},
 			{ID: "R01f", Floor: 1, Doc: "PutMany decides and inserts block by block", Run: ruleR01f},
+			{ID: "R01i", Floor: 2, Doc: "streams read through the non-seekable adapter are positioned by counting every byte (= R03d)", Run: ruleR03d},
+			{ID: "R01j", Floor: 1 + 1 + 4, Doc: "the on-disk index keeps every record handed to it (sorted, none dropped), so index-backed readers see what sequential readers see (= R11b)", Run: ruleR11b},
+			{ID: "R01k", Floor: 2 + 2 + 4, Doc: "put de-duplication decides at CID/multihash granularity, never by bare digest: no block that was put is silently left out (= R04a)", Run: ruleR04a},
 		},
 	})
 }
@@ -465,7 +468,7 @@ func ruleR01e(c *Ctx, r *Report) {
 				cut := EdgeSet{}
 				for _, s := range sinks {
 					for i := range s.Block().Succs {
-						cut[Edge{s.Block(), i}] = true
+						cut[Edge{From: s.Block(), Succ: i}] = true
 					}
 				}
 				for _, e := range okEdges {
@@ -510,7 +513,7 @@ func ruleR01f(c *Ctx, r *Report) {
 	cut := EdgeSet{}
 	for _, i := range ins {
 		for s := range i.Block().Succs {
-			cut[Edge{i.Block(), s}] = true
+			cut[Edge{From: i.Block(), Succ: s}] = true
 		}
 	}
 	bad := ""
